@@ -663,6 +663,12 @@ func (hs *clientHandshakeState) readFinished(out []byte) error {
 	if c.in.err != nil {
 		return c.in.err
 	}
+	if c.in.nextCipher != nil {
+		// A client that permits renegotiation lets a handshake record pass where the
+		// ChangeCipherSpec is due; the pending cipher state shows that none was processed.
+		c.sendAlert(alertUnexpectedMessage)
+		return errors.New("tls: server's Finished arrived without ChangeCipherSpec")
+	}
 
 	msg, err := c.readHandshake()
 	if err != nil {
